@@ -94,3 +94,5 @@ pub use ractor_cluster_derive::RactorMessage;
 
 #[cfg(slawlor_ractor_verif)]
 pub use net::verif_session_probe;
+#[cfg(slawlor_ractor_verif)]
+pub use remote_actor::verif_probe as verif_remote_actor_probe;
